@@ -135,7 +135,9 @@ int main(int argc, char **argv) {
     static uint8_t b[1 << 21];
     size_t n = fread(b, 1, sizeof b, f);
     fclose(f);
+    alarm(10); /* a hanging input kills the replay with SIGALRM instead of blocking it */
     LLVMFuzzerTestOneInput(b, n);
+    alarm(0);
   }
   return 0;
 }
